@@ -183,7 +183,7 @@ static void check_locks(const char *when) {
 }
 
 // called at every callback entry and after every operation, for an end that is live
-static void observe(End &e, const char *when) {
+static void observe(End &e, const char *when, bool end_of_op = false) {
   if (!e.live) return;
   struct bufferevent *t = top(e);
   size_t len = inlen(t), out = outlen(t);
@@ -202,9 +202,9 @@ static void observe(End &e, const char *when) {
   }
   if (M19() && e.rd_done && (e.n_eof_r || W->kind == K_PAIR) && !(e.nl > 1 && verif_known("C19/data-after-eof-filter")))
     CHECK(in_total(e) <= e.total_at_eof, e.nl > 1 ? "C19/data-after-eof-filter" : "C19/data-after-eof", "%s: end %c obtained %llu more byte(s) after EOF was reported for reading", when, 'A' + e.id, (unsigned long long)(in_total(e) - e.total_at_eof));
-  e.prev_len = len; e.prev_out = out; e.hi_excuse = false;
+  e.prev_len = len; e.prev_out = out; if (end_of_op) e.hi_excuse = false;   // a FLUSH/FINISHED flush excuses growth for the whole op, callbacks included
 }
-static void observe_all(const char *when) { observe(W->e[0], when); observe(W->e[1], when); }
+static void observe_all(const char *when) { observe(W->e[0], when, true); observe(W->e[1], when, true); }
 
 // conservation of bytes (count level); content is checked when the application consumes
 static void check_conservation(const char *when) {
